@@ -89,8 +89,8 @@ func runC11(c *core.Ctx) {
 					for tcols := -1; tcols <= 5; tcols++ { // -1 = plain for; 0 = tablerow without cols; k = cols k-... (5 -> cols 4)
 						for kind := 0; kind < 7; kind++ {
 							for bc := 0; bc < 3; bc++ { // 0 none, 1 break, 2 continue
-								if bc > 0 && tcols >= 0 {
-									continue
+								if bc == 1 && tcols >= 0 {
+									continue // tablerow after break: not stated
 								}
 								idx++
 								if !c.Mine(idx) {
